@@ -181,7 +181,9 @@ func selectLexCorpus(sel map[string][]lexSel, order []string, leads []lexLead, t
 // regdefRule implements the attribution rule "regdef-sharing": the violation disappears when every
 // regular-definition reference is replaced by a parenthesised copy of its body and gocc is re-run.
 func regdefRule(sw *sweeper, g *gram.Grammar) bool {
-	if g == nil || !g.HasRegDefs() {
+	// only definitions that are multi-character or nullable can expose the sharing of one item set between call
+	// sites; a violation in a grammar whose definitions are all single-character classes is something else
+	if g == nil || !g.HasRegDefs() || !g.SharingSensitive() {
 		return false
 	}
 	in := gram.InlineRegDefs(g)
@@ -268,7 +270,7 @@ func runLexCheck(prop, tier string) int {
 		}
 	})
 	if err != nil {
-		ev.Inconsistent("%v", err)
+		driverFailed(r, prop, "lex", c, err)
 	}
 	// leads that the compiled code did not confirm are reported, never as violations
 	unconfirmed := 0
